@@ -68,6 +68,7 @@ pub fn gen_long_history(check: &str, seed: u64, tier: Tier) -> Run {
     if check == "C13" {
         run.set("analysis", [0, 0, 0, 0, 1, 2][Rng::stream(seed, "analysis").below(6)]);
     }
+    super::sesscc::boundary_prelude(&mut run, seed);
     // (own stream) one run in seven has a companion e-graph in the same thread (sess.rs)
     if Rng::stream(seed, "companion").chance(1, 7) {
         run.set("companion", 1);
